@@ -19,7 +19,7 @@ RULE = ('generated dense dataset directories loaded through TemplateModel: integ
         'get_amplitudes_true calls return; distinct = distinct abstract dataset (+ factor).')
 EXHAUSTIVE = {'quick': False, 'thorough': False}
 CLAUSES = {
-    1: 'an observed value differs from the Coq model PV.C09.Model (float-token instance)',
+    1: 'an observed value differs from the Coq model PV.C09.Model (exact-rational instance; floats within 2^-48 relative)',
     20: 'the dataset could not be loaded, or an anchored method raised on a well-formed dense dataset',
     21: 'C09_spike_amps: spike amplitude = stored amplitude * largest channel peak-to-peak of the unwhitened template * factor',
     22: 'C09_template_amps: one mean of the scaled spike amplitudes per waveform, NaN exactly for the ids without spikes (any id, including the highest)',
